@@ -62,8 +62,13 @@ package rendering
 //@ func (*EventRenderingService).SetRenderer
 //@   modifies s.currentState
 //@   ensures [set] s.currentState == state
+// C07: the event is written to the client's connection; a client that does not read its reply must not keep the service's
+// lock (the next invocation's SetRenderer waits for it while holding the handler mutex, and the timeout reset waits for that)
+//@ event ServiceReadLockReleased = call sync.(*RWMutex).RUnlock
+//@ event RuntimeEventWritten = call rendering.(RendererState).RenderRuntimeEvent
 //@ func (*EventRenderingService).RenderRuntimeEvent
 //@   modifies renderOut
+//@   ensures [C07: the-event-is-written-with-the-service-lock-released] delta(RuntimeEventWritten) >= 1 ==> delta(ServiceReadLockReleased) == 1 && first(ServiceReadLockReleased) < first(RuntimeEventWritten)
 //@ func (*EventRenderingService).RenderAgentEvent
 //@   modifies renderOut
 
